@@ -644,10 +644,10 @@ class MdibBase:
         """Return descriptor and state as Entity."""
         descr = self.descriptions.handle.get_one(handle)
         state = self.states.descriptor_handle.get_one(handle)
-        return Entity(self, descr, state)
+        return Entity(self, copy.deepcopy(descr), copy.deepcopy(state))
 
     def get_context_entity(self, handle: str) -> MultiStateEntity:
         """Return descriptor and states as MultiStateEntity."""
         descr = self.descriptions.handle.get_one(handle)
         states = self.context_states.descriptor_handle.get(handle, [])
-        return MultiStateEntity(self, descr, states)
+        return MultiStateEntity(self, copy.deepcopy(descr), copy.deepcopy(states))
